@@ -489,6 +489,15 @@ def run_r(res, module_names, select=None, root=None, seed=0):
             res.undecided.append(vac)
         res.units.append({"unit": u.name, "fn": u.fn, "file": u.file, "backend": "ringcheck",
                           "callee_contracts_used": sorted(set(calls))})
+    # ---- instance families are size-bounded stand-ins (all VALUES symbolic, the SIZES / widths / patterns fixed by the instance): reported as
+    # bounded, never as proved for every size
+    fam = {}
+    for u in todo:
+        if "[" in u.name and "all sizes" not in u.name and "all lengths" not in u.name:
+            fam.setdefault(u.name.split("[", 1)[0], []).append(u.name.split("[", 1)[1].rstrip("]"))
+    for base_, insts_ in sorted(fam.items()):
+        res.bounded.append({"what": "instance units: the contract is discharged for every value of the symbolic inputs, but only at the listed sizes / parameters",
+                            "family": base_, "instances": insts_[:40], "count": len(insts_)})
     # ---- size coverage of the instance units: a comparison `len <op> K` between a length fixed by the unit's instance and a constant K
     # of the code that NO instance reaches (K above every instance's value, one outcome only) means the code has a size-dependent path
     # which the instances never execute.  Never an alarm: the run is UNDECIDED unless the site is in the recorded baseline of the
